@@ -33,7 +33,7 @@ META = dict(
     outside=["float overflow at magnitudes ~1e4+", "block_neural_autoregressive_flow / triangular_spline_flow factories (cannot be constructed in this environment)"],
 )
 
-LEAVES_Q = ["affine2", "loc", "scale", "tri2l", "exp", "expvec", "softplus", "tanh", "leakytanh", "rqs1", "rqs1b", "planar2", "planar2tanh", "addcond", "perm3"]
+LEAVES_Q = ["affine2", "loc", "scale", "tri2l", "exp", "expvec", "softplus", "tanh", "leakytanh", "rqs1", "rqs1b", "planar2", "planar2s", "planar2tanh", "addcond", "perm3"]
 LEAVES_T = LEAVES_Q + ["rqs2", "rqs2b", "tri3u", "planar1", "affine22"]
 
 
